@@ -249,8 +249,8 @@ def sameHier (H H' : Hier) : Bool :=
 /-- C06: on every path through the hierarchy (either walk, latches consuming their variable) no
     control-variable error occurs, and the tables agree with the successor tuples. -/
 def ctlOK (H : Hier) (htop : Name) : Bool :=
-  reachOK (sysName H true) Obs.isCtlErr (initName H htop true) (simFuel H H) &&
-  reachOK (sysRegion H true) Obs.isCtlErr (initRegion H htop true) (simFuel H H) &&
+  reachOKc (sysName H true) Obs.isCtlErr (initName H htop true) (simFuel H H) &&
+  reachOKc (sysRegion H true) Obs.isCtlErr (initRegion H htop true) (simFuel H H) &&
   tablesOK H
 
 end Scfg
